@@ -136,7 +136,7 @@ pub enum Unit {
     /// the exact chunks of an earlier good message again (index scaled over the good messages sent so far)
     Replay(u16),
     /// a fresh message with one fault: 0 drop a chunk, 1 swap two chunks, 2 duplicate a chunk, 3 other request id on one chunk,
-    /// 4 other channel id on one chunk, 5 sequence number gap before it
+    /// 4 other channel id on one chunk, 5 sequence number gap before it, 6 request id 0 on the first chunk only
     Faulty(u32, u8, u16),
 }
 
@@ -208,7 +208,12 @@ fn clone_chunks(v: &[MessageChunk]) -> Vec<MessageChunk> {
 fn apply_fault(chunks: &mut Vec<MessageChunk>, kind: u8, pos: u16) -> &'static str {
     let n = chunks.len();
     let i = (pos as usize * n) >> 16;
-    match kind % 5 {
+    match if kind == 6 { 6 } else { kind % 5 } {
+        6 if n >= 2 => {
+            // the first chunk names request id 0, the others the genuine id
+            set_request_id(&mut chunks[0], 0);
+            "first-chunk-request-id-zero"
+        }
         0 if n >= 2 => {
             // drop an intermediate chunk (the last one must stay so that the message "completes")
             chunks.remove(i.min(n - 2));
@@ -445,14 +450,14 @@ fn unit() -> impl Strategy<Value = Unit> {
     prop_oneof![
         4 => prop_oneof![0u32..5, 90u32..300].prop_map(Unit::Good),
         2 => any::<u16>().prop_map(Unit::Replay),
-        3 => (prop_oneof![0u32..5, 90u32..300], 0u8..6, any::<u16>()).prop_map(|(n, k, p)| Unit::Faulty(n, k, p)),
+        3 => (prop_oneof![0u32..5, 90u32..300], 0u8..7, any::<u16>()).prop_map(|(n, k, p)| Unit::Faulty(n, k, p)),
     ]
 }
 
 pub fn def() -> PropDef {
     PropDef {
         id: "C12",
-        rule: "sender: 1..20 messages of 1..5 chunks through the real client SendBuffer and the server MessageWriter, the wire bytes re-framed and checked for +1 sequence numbers across the whole history and pairwise distinct request ids; receiver: histories of genuine multi-chunk messages, verbatim replays of earlier accepted messages, and messages with one fault (dropped / swapped / duplicated chunk, foreign request id or channel id, sequence gap) delivered to the real server transport (after HEL + OPN) and to the real client transport state, a quarter of the histories with sequence numbers that start up to 13 below u32::MAX and cross the 32-bit boundary; oracle on delivered messages: no message answered twice, faulty or replayed messages never delivered, genuine ones delivered; non-trivial = a replay after an accepted multi-chunk message, or >= 3 chunks over >= 2 messages; distinct = distinct history",
+        rule: "sender: 1..20 messages of 1..5 chunks through the real client SendBuffer and the server MessageWriter, the wire bytes re-framed and checked for +1 sequence numbers across the whole history and pairwise distinct request ids; receiver: histories of genuine multi-chunk messages, verbatim replays of earlier accepted messages, and messages with one fault (dropped / swapped / duplicated chunk, foreign request id or channel id, request id 0 on the first chunk only, sequence gap) delivered to the real server transport (after HEL + OPN) and to the real client transport state, a quarter of the histories with sequence numbers that start up to 13 below u32::MAX and cross the 32-bit boundary; oracle on delivered messages: no message answered twice, faulty or replayed messages never delivered, genuine ones delivered; non-trivial = a replay after an accepted multi-chunk message, or >= 3 chunks over >= 2 messages; distinct = distinct history",
         assumptions: &["policy None (numbering logic is policy independent; C07/C08 cover security)", "a duplicated chunk inside one message may be de-duplicated: delivering the genuine message is then allowed", "an error returned by the receiver closes the connection, as the reading loops do", "sequence number wrap-around is not implemented by the stack: once the sender's numbers have crossed the 32-bit boundary a refusal of genuine messages is accepted, replays and double delivery are not"],
         abort_possible: false,
         parts: |tier| {
